@@ -737,6 +737,21 @@ func (g *clientGen) fixedCases() []KCase {
 				{K: "addrule", Rule: hex.EncodeToString(g.bytesN(40)), Plans: []simkernel.Plan{{Items: append(append([]simkernel.Item{}, tr...), g.ack(17))}}}}, after...)})
 		}
 	}
+	// requests whose acknowledgements are still pending while real time passes: a second, a quarter of a minute
+	// (thorough: also more than a minute), then further requests and the wait for all of them; the first kernel error
+	// is reported and every acknowledgement is consumed, however old
+	gaps := []int{1200}
+	if g.ctx.Thorough() && g.ctx.Prop == "C17" {
+		gaps = []int{1200, 11000, 31000, 61000}
+	}
+	for _, gap := range gaps {
+		out = append(out, KCase{Kind: "history", BufLen: 64, Ops: []KOp{
+			{K: "setratelimit", V: 1, WM: 2, Plans: []simkernel.Plan{{Items: []simkernel.Item{g.ack(1)}}}},
+			{K: "setbackloglimit", V: 2, WM: 2, GapMs: gap, Plans: []simkernel.Plan{{Items: []simkernel.Item{g.ack(0)}}}},
+			{K: "wait"}, {K: "wait"},
+			{K: "setpid", WM: 2, Plans: []simkernel.Plan{{Items: []simkernel.Item{g.ack(0)}}}},
+			{K: "close", GapMs: gap, Plans: []simkernel.Plan{{Items: []simkernel.Item{g.ack(0)}}}}}})
+	}
 	// status replies whose fields hold small numbers (version-like values, flags), one field at a time, at the
 	// lengths of the historical layouts
 	for _, n := range []int{32, 36, 40, 44, 48} {
